@@ -336,8 +336,9 @@ def check_no_mutation(run, A):
 
 def check(run):
     A = run.A
-    from ..opt import check_axisless_squeeze
+    from ..opt import check_axisless_squeeze, check_layout_dependent_flatten
     check_axisless_squeeze(run, A, ('pb_bss.extraction.mask_module',))
+    check_layout_dependent_flatten(run, A, ('pb_bss.extraction.mask_module',))
     from ..opt import check_optional_truthiness, check_params_reach, check_forwarding, check_stale_loop_variables, check_argument_names, check_none_use
     check_none_use(run, A, ('pb_bss.extraction.mask_module',))
     check_argument_names(run, A, ('pb_bss.extraction.mask_module',))
